@@ -102,7 +102,7 @@ fn strategy_shared() -> BoxedStrategy<Case> {
   (crate::gen::text(true, 8), crate::gen::abs_map(cfg), 0u8..crate::props::c14::SETTERS.len() as u8, 0u8..4u8)
     .prop_map(move |(text, am, setter, wrap)| {
       let map = crate::gen::concretize_map(&text, &am, true);
-      Case::Shared { x: Spec::Sms { text, name: "g.js".into(), map }, setter, wrap }
+      Case::Shared { x: Spec::Sms { text, name: "g.js".into(), map, full: None }, setter, wrap }
     })
     .boxed()
 }
